@@ -7,7 +7,9 @@ P: RG.Engine.CommentSpec models runCommentRules + handleCommentMatch with the re
    group is bound by regexp group index to its submatch text ("" when it did not participate). The theorems are
    instantiated with nodeText's in-range test regenerated from /repo (shared with C03) on every run, and runCommentRules
    itself is translated from runner.go statement by statement (go2coq c12loop) and proved on every run to BE that model
-   (C12_translated_loop_is_model), for every base of the file in the FileSet. The LOADER of comment rules (loadCommentRule +
+   (C12_translated_loop_is_model), for every base of the file in the FileSet; handleCommentMatch is translated too (go2coq
+   c12handler: the REUSED report record is part of the world it transforms) and proved to deliver the model's report to the
+   callback whatever the record held before (C12_translated_handler_is_model, C12_report_independent_of_reused_record). The LOADER of comment rules (loadCommentRule +
    the tail of loadRule that ranges over rule.CommentPatterns) is translated too (go2coq c12load) and proved to be the
    model loader: a MatchComment call with k regexps is k comment rules in the written order, each with its own regexp's
    names / flag / line (C12_alternatives_are_rules_in_written_order, C12_k_alternatives_are_k_rules), and running the
@@ -36,7 +38,7 @@ def b64(x):
 
 
 def run(c):
-    c.go2coq_sources = ["c03.go", "textmatch.go", "c12.go", "c03loop.go", "c12loop.go", "c12load.go"]   # private translator build: another family's generator cannot break this check
+    c.go2coq_sources = ["c03.go", "textmatch.go", "c12.go", "c03loop.go", "c12loop.go", "c12load.go", "c12handler.go"]   # private translator build: another family's generator cannot break this check
     thorough = c.tier == "thorough"
     c.rule = ("fixed MatchComment rules (named groups in both spellings, unnamed-in-front, optional, nested, alternative (non-participating) "
               "groups, no groups = fast path, multi-byte, (?s) multi-line, Where filters on Text / Line / Node, At(), Suggest), rule families "
@@ -51,8 +53,9 @@ def run(c):
         "go/parser + go/scanner deliver comment.Text and positions (the scanner strips \\r: see the known finding)",
         "go2coq c12loop: the statement-level Go->Gallina translator of runCommentRules (its reading of Go: let for :=, nested range loops "
         "with break/continue over explicit loop states, partial indexing/slicing in the outcome monad, token.File.Pos/Offset as base + "
-        "offset, the composite literals as abstract constructors); handleCommentMatch is modelled by hand (CommentSpec.handle / "
-        "mk_creport) -- tied by correspondence on every run and by the statement facts regenerated for C03 and C12",
+        "offset, the composite literals as abstract constructors) and c12handler, the translator of handleCommentMatch (the reused record "
+        "rr.reportData as one cell per field of ReportData, rr.filterParams.match, the Report callback seeing a snapshot of the record; the "
+        "filter call, renderMessage, m.Node / CapturedByName, node.Pos / End as abstract operations; rr.reject is read as debug output only)",
         "go2coq c12load: the statement-level translator of loadCommentRule and the comment-pattern tail of loadRule (functions returning error "
         "as option E * state, the rule slice as the only state, regexp.Compile / checkBoundVars / errorf / the goCommentRule literal as abstract "
         "operations); the part of loadRule in front of that tail (the goRule prototype, the filter) and LoadFile's walk over groups are modelled "
@@ -64,7 +67,7 @@ def run(c):
 
     c.sh([os.path.join(c.verif, "coq", "build.sh")], timeout=3400)
     c.require_theories("Base/*.v", "Regex/Utf8.v", "Regex/Regex.v", "Regex/Capture.v", "Engine/TruncateSpec.v", "Engine/RenderSpec.v",
-                       "Engine/CommentSpec.v", "Engine/CommentLoop.v", "Engine/CommentLoad.v")
+                       "Engine/CommentSpec.v", "Engine/CommentLoop.v", "Engine/CommentLoad.v", "Engine/CommentHandler.v")
 
     gen_ok = False
     gen12_ok = False
@@ -74,10 +77,16 @@ def run(c):
     if c.go2coq("c12facts", "Gen_C12.v"):
         if c.coq_compile(["Gen_C12.v"]):
             gen12_ok = True
-    # runCommentRules, translated statement by statement; the executed model uses it when it translates
+    # handleCommentMatch, translated statement by statement (the reused report record is part of the world it transforms)
+    handler_ok = False
+    if c.go2coq("c12handler", "Gen_C12Handler.v"):
+        if c.coq_compile(["Gen_C12Handler.v"]):
+            c.install_tmpl("C12/Def_CommentHandler.v")
+            handler_ok = c.coq_compile(["Def_CommentHandler.v"])    # definitions only: the executed handler
+    # runCommentRules, translated statement by statement, calling the translated handler; the executed model uses it when both translate
     loop_ok = False
     if c.go2coq("c12loop", "Gen_C12Loop.v"):
-        if c.coq_compile(["Gen_C12Loop.v"]):
+        if c.coq_compile(["Gen_C12Loop.v"]) and handler_ok:
             c.install_tmpl("C12/Def_CommentLoop.v")
             loop_ok = c.coq_compile(["Def_CommentLoop.v"])    # definitions only: the executed model
     # loadCommentRule + the tail of loadRule that ranges over rule.CommentPatterns, translated statement by statement; the
@@ -88,12 +97,17 @@ def run(c):
             c.install_tmpl("C12/Def_CommentLoad.v")
             load_ok = c.coq_compile(["Def_CommentLoad.v"])    # definitions only: the executed loader
     if gen_ok and gen12_ok:
-        c.install_tmpl("C03/Inst_Render.v", "C12/Inst_Comment.v", "C12/Inst_CommentLoop.v", "C12/Inst_CommentLoad.v", "C12/C12.v")
+        c.install_tmpl("C03/Inst_Render.v", "C12/Inst_Comment.v", "C12/Inst_CommentHandler.v", "C12/Inst_CommentLoop.v", "C12/Inst_CommentLoad.v", "C12/C12.v")
         c.coq_compile(["Inst_Render.v", "Inst_Comment.v"])
-        if loop_ok:
+        if handler_ok:
+            handler_proved = c.coq_compile(["Inst_CommentHandler.v"])
+        else:
+            handler_proved = False
+            c.obligation("coq:Inst_CommentHandler.v", False, "not compiled: handleCommentMatch did not translate")
+        if loop_ok and handler_proved:
             c.coq_compile(["Inst_CommentLoop.v"])
         else:
-            c.obligation("coq:Inst_CommentLoop.v", False, "not compiled: runCommentRules did not translate")
+            c.obligation("coq:Inst_CommentLoop.v", False, "not compiled: runCommentRules / handleCommentMatch did not translate or the handler proof broke")
         if load_ok:
             c.coq_compile(["Inst_CommentLoad.v"])
         else:
@@ -347,7 +361,7 @@ def run(c):
             "From RG.Base Require Import Outcome GoInt GoSlice.",
             "From RG.Engine Require Import TruncateSpec RenderSpec CommentSpec.",
             ("From RGW Require Import Gen_C12." if gen12_ok else ""),
-            ("From RG.Engine Require Import RenderLoop CommentLoop.\nFrom RGW Require Import Gen_C12Loop Def_CommentLoop." if loop_ok else ""),
+            ("From RG.Engine Require Import RenderLoop CommentLoop CommentHandler.\nFrom RGW Require Import Gen_C12Loop Gen_C12Handler Def_CommentHandler Def_CommentLoop." if loop_ok else ""),
             "From RGW Require Import Gen_C03." if gen_ok else
             "Definition nodeTextInRange (from to : Z) (src : bytes) : outcome bool := Ok ((0 <=? from)%Z && (from <? len src)%Z && ((from <=? to)%Z && (to <=? len src)%Z)).",
             "Import ListNotations. Local Open Scope Z_scope.",
@@ -398,8 +412,9 @@ def run(c):
             # the executed model: runCommentRules as translated from the source (file base from the FileSet), else the hand model
             # with the declaration site of the match data read off the source
             if loop_ok:
-                model = ("match gen_run_comment_rules nodeTextInRange (table_oracle mt) l (nth f srcs []) off text (nth f bases 0) (combine rules idxs) [] with "
-                         "Ok [] => negb (rep_eqb None ob) | Ok [r] => negb (rep_eqb (Some r) ob) | Ok _ => true | Panic _ => true end")
+                # the reused report record starts out full of what an earlier report may have left (stale_world): none of it may show
+                model = ("match gen_run_comment_rules nodeTextInRange (table_oracle mt) l (nth f srcs []) off text (nth f bases 0) (combine rules idxs) stale_world with "
+                         "Ok w' => match reports_of w' with [] => negb (rep_eqb None ob) | [Some r] => negb (rep_eqb (Some r) ob) | _ => true end | Panic _ => true end")
             else:
                 model = ("match run_loop nodeTextInRange (table_oracle mt) l (nth f srcs []) off text %s md_zero (combine rules idxs) with "
                          "Ok r => negb (rep_eqb r ob) | Panic _ => true end" % fresh)
